@@ -76,6 +76,12 @@ class Run:
         self.slot_lock = threading.Lock()
         self.unit_hashes = {}
         self.src_dirs = {}
+        self.children = set()
+        for sig in (signal.SIGTERM, signal.SIGINT, signal.SIGHUP):
+            try:
+                signal.signal(sig, self._on_signal)
+            except Exception:
+                pass
         self.extra_assumptions = []
         self.outside = []
         self.violations = []
@@ -83,7 +89,21 @@ class Run:
         self.suspects = []
         self.soft = []
 
+    def kill_children(self):
+        for pid in list(self.children):
+            try:
+                os.killpg(pid, signal.SIGKILL)
+            except Exception:
+                pass
+
+    def _on_signal(self, signum, frame):
+        # a killed check must not leave solver processes (and their multi-GB temporary files) behind
+        self.kill_children()
+        shutil.rmtree(self.work, ignore_errors=True)
+        os._exit(130)
+
     def cleanup(self):
+        self.kill_children()
         shutil.rmtree(self.work, ignore_errors=True)
 
     # ---------------------------------------------------------------- builds
@@ -249,7 +269,14 @@ class Run:
                 def pre(mem=mem):
                     os.setsid()
                     resource.setrlimit(resource.RLIMIT_AS, (mem, mem))
-                procs[b] = (subprocess.Popen(cmd, stdout=out, stderr=subprocess.STDOUT, preexec_fn=pre), out, tf)
+                # cbmc writes multi-GB CNF files for the external solver into TMPDIR and leaves them behind when killed:
+                # keep them inside the run's scratch directory, which is removed at exit
+                tmpd = os.path.join(qdir, 'tmp.' + b)
+                os.makedirs(tmpd, exist_ok=True)
+                procs[b] = (subprocess.Popen(cmd, stdout=out, stderr=subprocess.STDOUT, preexec_fn=pre,
+                                             env=dict(os.environ, TMPDIR=tmpd)), out, tf)
+                with self.lock:
+                    self.children.add(procs[b][0].pid)
             winner = None
             verdicts = {}
             while procs and winner is None and time.time() - t0 < q.cap:
@@ -273,6 +300,8 @@ class Run:
                     pass
                 p.wait()
                 out.close()
+            for b in q.backends:
+                shutil.rmtree(os.path.join(qdir, 'tmp.' + b), ignore_errors=True)
         finally:
             for _ in range(nslots):
                 self.slots.release()
